@@ -1134,6 +1134,41 @@ def extreme_forms(W, tier, rng):
     return out
 
 
+def const_operand_forms(forms, tier):
+    """the same form with a CONSTANT FNode (TRUE/FALSE, Int 0/1, BV 0/max) in one argument position, the
+    other positions staying symbols (constructors with fast paths on constant operands)"""
+    out = []
+    for F in forms:
+        k = len(F.sorts)
+        if k < 1 or k > 6 or getattr(F, "expr", False) or F.asg is not None:
+            continue
+        positions = range(k) if k <= 3 else (0, k // 2, k - 1)
+        for j in positions:
+            sj = F.sorts[j]
+            if sj == "bool":
+                cands = [True, False]
+            elif sj == "int":
+                cands = [0, 1] if tier != "quick" else [0]
+            elif sj == "real":
+                cands = [Fraction(0), Fraction(1)] if tier != "quick" else [Fraction(0)]
+            else:
+                if sj[1] > 2 and tier == "quick":
+                    continue
+                cands = [("bv", sj[1], 0), ("bv", sj[1], mask(sj[1]))]
+            if sj != "bool" and tier == "quick":
+                continue
+            for cv in cands:
+                def build(W, a, F=F, j=j, sj=sj, cv=cv):
+                    c = semantic.val_to_fnode(W.mgr, sort_type(sj), cv)
+                    return F.build(W, list(a[:j]) + [c] + list(a[j:]))
+
+                def oracle(v, F=F, j=j, cv=cv):
+                    return F.oracle(list(v[:j]) + [cv] + list(v[j:]))
+                nm = "%s @const%d=%s" % (F.name, j, cv if not isinstance(cv, tuple) else "bv%d" % cv[2])
+                out.append(SForm(nm, F.sorts[:j] + F.sorts[j + 1:], build, oracle, True))
+    return out
+
+
 def variant_forms(forms, tier):
     """the same form on permuted argument lists (call history on one manager: these are built
     after the originals), on lists with repeated operands, and on lists in which the same
@@ -1217,8 +1252,8 @@ def s_forms(W, tier, rng):
     maxw = 3 if tier == "quick" else 4
     base = base_forms(W, tier, rng, W.mgr, "", maxw)
     via_sc = base_forms(W, tier, rng, ShortcutsProxy(W.mgr), " [shortcuts]", 2 if tier == "quick" else 3)
-    return (base + via_sc + variant_forms(base, tier) + expr_forms(rng, tier) + extreme_forms(W, tier, rng) +
-            large_forms(W, tier, rng))
+    return (base + via_sc + variant_forms(base, tier) + const_operand_forms(base + via_sc, tier) +
+            expr_forms(rng, tier) + extreme_forms(W, tier, rng) + large_forms(W, tier, rng))
 
 
 def base_forms(W, tier, rng, m, tag, maxw):
